@@ -136,7 +136,11 @@ func init() {
 			}
 		}
 		c.Phase("long-payloads") // texts of several hundred to several thousand characters: round trip, specification text, and substitutions at sampled positions over the whole length
-		for li, L := range []int{200, 240, 245, 246, 250, 256, 300, 511, 512, 600, 2000, 5000} {
+		longs := []int{200, 240, 245, 246, 250, 256, 300, 511, 512, 600, 2000, 5000, 9999, 10000, 10001, 16384}
+		if c.Thorough {
+			longs = append(longs, 65536, 250000)
+		}
+		for li, L := range longs {
 			if !c.Case(uint64(li)) {
 				continue
 			}
@@ -161,6 +165,13 @@ func init() {
 		c.Phase("free-form")
 		free := []string{"", ":", "bitcoin-script:", "bitcoin-script:01", "bitcoin-script:0101", "bitcoin-script:010100000000", "bitcoin-script:invalid",
 			"bitcoin-script:0101zz00000000", ":010100deadbeef", "bitcoin-script:01010", "bitcoin-script::0101ab00000000"}
+		// malformed layouts whose checksum is CORRECT for their own characters (a corruption of a
+		// valid text never is): no scheme in front of the colon; other schemes in the same layout
+		for _, d := range [][]byte{{0x51}, {0x6a, 0x01, 0x02}, bytes.Repeat([]byte{0x77}, 40)} {
+			for _, scheme := range []string{"", "bitcoin-scripts", "bitcoin-script-v2", "Bitcoin-script", "bitcoin-scrip", "xbitcoin-script", "bitcoin-script "} {
+				free = append(free, refaddr.EncodeBIP276(refaddr.BIP276{Prefix: scheme, Version: 1, Network: 1, Data: d}))
+			}
+		}
 		for i, t := range free {
 			if c.Case(uint64(i)) {
 				ct(c, &c17Text{Text: t, Class: "free"})
